@@ -3,7 +3,7 @@
 (random.Random(seed)); every choice derives from it.  Usage:
    gen_cases.py <profile> <seed> <ncases> <outfile>   (also importable)
 Prints the input distribution as JSON on stdout."""
-import sys, json, random
+import sys, json, random, math
 from fractions import Fraction as Fr
 
 def fl(x):
@@ -478,6 +478,78 @@ class Gen:
                 out.append("csolver %d" % r.randint(1, 3))
                 out.append("asmqd %s %s %s" % (self.vec(q0), self.vec(qd), self.vec(wts)))
             if r.random() < 0.2: out.append("scramble %d" % r.randint(0, 9))
+        return out
+    def case_C18(self, idx):
+        """quintic Bezier toolkit, curve factories with parameters inside the documented domains (incl. extremes of
+        curviness), evaluation inside segments, exactly at junctions, in the extrapolation; shift / scale; inverse"""
+        r = self.r; out = ["case x"]
+        U = lambda a, b: r.uniform(a, b)
+        g = lambda v: " ".join(repr(float(x)) for x in v)
+        # ---- raw toolkit calls
+        for _ in range(3):
+            op = r.choice(["val", "du", "dydx", "corner", "calcu"]); self.count("calls", "bez_" + op)
+            u = r.choice([0.0, 1.0, 0.5, U(0, 1), U(0, 1)])
+            pts = sorted(U(-2, 2) for _ in range(6)); ypts = [U(-2, 2) for _ in range(6)]
+            if op == "val": out.append("bez val %r %s" % (u, g(ypts)))
+            elif op == "du": out.append("bez du %d %r %s" % (r.randint(1, 6), u, g(ypts)))
+            elif op == "dydx":
+                xs = [pts[0]] + [pts[i] + 0.05 * i for i in range(1, 6)]
+                out.append("bez dydx %d %r %s %s" % (r.randint(1, 3), u, g(xs), g(ypts)))
+            elif op == "corner":
+                x0 = U(-1, 1); x1 = x0 + U(0.2, 2); d0 = U(-2, 2); d1 = d0 + r.choice([U(0.1, 3), -U(0.1, 3), 0.0])
+                y0 = U(-1, 1)
+                # y1 so that the tangent lines intersect between x0 and x1 (a C-shaped corner), sometimes not
+                xc = x0 + U(0.15, 0.85) * (x1 - x0) if r.random() < 0.85 else x0 - 0.5
+                y1 = y0 + d0 * (xc - x0) + d1 * (x1 - xc)
+                out.append("bez corner %s %r" % (g([x0, y0, d0, x1, y1, d1]), r.choice([0.0, 1.0, 0.5, U(0, 1)])))
+            else:
+                xs = [pts[0]] + [pts[i] + 0.05 * i for i in range(1, 6)]
+                ax = xs[0] + U(0, 1) * (xs[5] - xs[0])
+                out.append("bez calcu %r %s %s %d" % (ax, g(xs), r.choice(["1e-9", "2.220446049250313e-10"]), 20))
+        # ---- a factory curve
+        cv = r.choice([0.0, 1.0, 0.5, U(0, 1), U(0, 1)])
+        kind = r.choice(["fal", "fv", "fvinv", "fcphi", "fccos", "fcl", "fpe", "ft"]); self.count("calls", "curve_" + kind)
+        if kind == "fal":
+            l0 = U(0.3, 0.6); l1 = l0 + U(0.1, 0.3); l2 = l1 + U(0.1, 0.3); l3 = l2 + U(0.3, 0.8)
+            par = [l0, l1, l2, l3, r.choice([0.0, 0.1, U(0, 0.2)]), U(0, 0.9) / (l3 - l2) * (l3 - l2) * min(1.0, 0.95 / (l3 - l2)), cv]
+        elif kind in ("fv", "fvinv"):
+            fmax = U(1.2, 1.8); dc = U(0.0, 0.3) if kind == "fv" else U(0.05, 0.3); dnc = dc + U(0.05, 0.4); diso = U(2, 8)
+            de = U(0.0, 0.5 * (fmax - 1)) if kind == "fv" else U(0.02, 0.5 * (fmax - 1)); dne = de + U(0.01, 0.4 * (fmax - 1))
+            par = [fmax, dc, dnc, diso, de, dne, r.choice([0.0, 1.0, U(0, 1)]), r.choice([0.0, 1.0, U(0, 1)])]
+        elif kind == "fcphi":
+            phi0 = U(0.3, 1.3); par = [phi0, 1.0 / (math.pi / 2 - phi0) * U(1.05, 3), cv]
+        elif kind == "fccos":
+            c0 = U(0.05, 0.6); par = [c0, -1.0 / c0 * U(1.05, 3), cv]
+        elif kind == "fcl":
+            l0 = U(0.2, 0.8); par = [l0, -1.0 / l0 * U(1.05, 3), cv]
+        elif kind == "fpe":
+            ez = r.choice([0.0, U(0, 0.2)]); ei = ez + U(0.3, 0.9); kiso = 1.0 / (ei - ez) * U(1.1, 3); par = [ez, ei, U(0.05, 0.98) / (ei - ez), kiso, cv]
+        else:
+            e0 = U(0.02, 0.1); par = [e0, 1.0 / e0 * U(1.1, 2), U(0.1, 0.9), cv]
+        out.append("curve %s %s" % (kind, g(par)))
+        def where():
+            w = r.choice(["j", "j", "f", "f", "f", "e"])
+            if w == "j": return "j %d" % r.randint(0, 5)
+            if w == "f":
+                if r.random() < 0.3:     # close to the ends of the whole domain (first / last segment)
+                    e = r.choice([1e-9, 1e-7, 1e-6, 1e-5, 1e-4, 1e-3])
+                    return r.choice(["f 0 %r" % e, "f 9 %r" % (1 - e)])
+                return "f %d %r" % (r.randint(0, 4), r.choice([U(0, 1), U(0, 1), 1e-9, 1 - 1e-9, 0.5]))
+            return "e %d %r" % (r.randint(0, 1), r.choice([U(0, 2), 1e-6, 0.5]))
+        for _ in range(10):
+            rt = r.choice(["cval", "cval", "cder", "cder", "cder", "cinv", "cshift", "cscale"]); self.count("calls", rt)
+            if rt == "cval": out.append("cval " + where())
+            elif rt == "cder": out.append("cder %d %s" % (r.randint(1, 3), where()))
+            elif rt == "cinv": out.append("cinv %r %r" % (U(0.02, 0.98), U(0, 1)))
+            elif rt == "cshift": out.append("cshift %r %r" % (U(-1, 1), U(-1, 1)))
+            else: out.append("cscale %r %r" % (r.choice([U(0.3, 3), -U(0.3, 3)]) if False else U(0.3, 3), U(0.3, 3)))
+        # ---- torque muscles of the built-in data sets
+        for _ in range(3):
+            ds = r.randint(0, 1); self.count("calls", "tmuscle_ds%d" % ds)
+            if ds == 0: gd, ag, jt = r.randint(0, 1), r.randint(0, 2), r.randint(0, 5)
+            else: gd, ag, jt = 0, 0, r.randint(0, 23)
+            out.append("tmuscle %d %d %d %d %r %r %r" % (ds, gd, ag, jt, U(-1.5, 1.5), U(-6, 6), r.choice([0.0, 1.0, U(0.05, 1), U(0.05, 1)])))
+        self.meta["nontrivial"] = True
         return out
     def case_C09(self, idx): return self._cons_case(["cjac", "cerr", "cverr", "csys", "scramble"], ncalls=7)
     def case_C08(self, idx): return self._cons_case(["fdc", "fdc", "csys", "scramble"], ncalls=6)
